@@ -2,7 +2,9 @@ package otto
 
 import (
 	"math"
+	"math/big"
 	"strconv"
+	"strings"
 
 	"golang.org/x/text/language"
 	"golang.org/x/text/message"
@@ -63,7 +65,26 @@ func builtinNumberToFixed(call FunctionCall) Value {
 	if value == 0 {
 		value = 0 // ES5 15.7.4.5 step 6: -0 is not negative
 	}
-	return stringValue(strconv.FormatFloat(value, 'f', int(precision), 64))
+	// ES5 15.7.4.5 step 8.a: on an exact tie pick the larger n (strconv rounds
+	// ties to even). |value|*10^f ends in .5 iff j = |value|*2^(f+1) is an odd
+	// integer; then |value|*10^f = j*5^f/2 and n = (j*5^f+1)/2.
+	f := int(precision)
+	if j := math.Ldexp(math.Abs(value), f+1); j < 1<<53 && j == math.Trunc(j) && math.Mod(j, 2) == 1 {
+		n := new(big.Int).Exp(big.NewInt(5), big.NewInt(int64(f)), nil)
+		n.Rsh(n.Add(n.Mul(n, big.NewInt(int64(j))), big.NewInt(1)), 1)
+		digits := n.String()
+		if len(digits) <= f {
+			digits = strings.Repeat("0", f+1-len(digits)) + digits
+		}
+		if f > 0 {
+			digits = digits[:len(digits)-f] + "." + digits[len(digits)-f:]
+		}
+		if value < 0 {
+			digits = "-" + digits
+		}
+		return stringValue(digits)
+	}
+	return stringValue(strconv.FormatFloat(value, 'f', f, 64))
 }
 
 func builtinNumberToExponential(call FunctionCall) Value {
